@@ -168,6 +168,17 @@ def _kw_pair(rng, basis):
             "t": float(np.round(rng.uniform(.5, 2), 3))}
 
 
+def _kw_shadow_h(rng, basis):
+    # a keyword parameter named like a default parameter: the caller's value is the one the integrand sees (as in every
+    # other form type), here a 2-D array of values at the quadrature points
+    return {"h": rng.uniform(1.5, 2.5, size=(basis.nelems, _nq(basis)))}
+
+
+def _kw_shadow_n(rng, basis):
+    d = basis.mesh.dim()
+    return {"n": rng.uniform(.5, 1.5, size=(d, basis.nelems, _nq(basis))), "h": float(np.round(rng.uniform(1.5, 2.5), 3))}
+
+
 def _kw_facet(rng, basis):
     return {"g": basis.interpolate(_dofs(rng, basis)), "k": _dofs(rng, basis), "t": float(np.round(rng.uniform(.5, 2), 3))}
 
@@ -272,6 +283,11 @@ def scalar_terms():
            + P["c"] * (e_dot(np.asarray(w.k.grad), D[0].g) * U[0].v
                        + e_dot(np.asarray(w.k.grad), U[0].g) * D[0].v) * V[0].v,
            coef=_c(.5, 2, "c"), jax_helpers=("dot", "grad")))
+    a(Term("kwargs-shadow-h", "scalar",   # the caller's own `h` (a 2-D array) instead of the mesh parameter
+           jx=lambda u, v, w, P: P["c"] * ((u[0] * _J(w.h)) * u[0]) * v[0],
+           res=lambda U, V, w, P: P["c"] * np.asarray(w.h) * U[0].v ** 2 * V[0].v,
+           jac=lambda U, D, V, w, P: 2 * P["c"] * np.asarray(w.h) * U[0].v * D[0].v * V[0].v,
+           coef=_c(.5, 2, "c"), kw=_kw_shadow_h))
     a(Term("kwargs-field", "scalar",   # pre-interpolated DiscreteField `prev`, 2-D array `q`, float `s`
            jx=lambda u, v, w, P: P["c"] * ((u[0] * w.prev) * u[0]) * v[0]
            + JH().dot(_J(w.prev.grad), JH().grad(u[0])) * ((u[0] * w.q) * v[0]) + w.s * u[0] * v[0],
@@ -566,6 +582,12 @@ def facet_terms():
            jac=lambda U, D, V, w, P: 2 * w.t * np.asarray(w.k) * U[0].v * D[0].v * V[0].v
            + P["c"] * e_dot(np.asarray(w.n), np.asarray(w.g.grad)) * D[0].v * V[0].v,
            coef=_c(.5, 2, "c"), dims=(2, 3), jax_helpers=("dot",), kw=_kw_facet))
+    a(Term("kwargs-facet-shadow-n", "scalar",   # the caller's own `n` (array) and `h` (float) instead of normal and mesh parameter
+           jx=lambda u, v, w, P: P["c"] * JH().dot(_J(w.n), JH().grad(u[0])) * (u[0] * v[0]) + w.h * (u[0] * u[0]) * v[0],
+           res=lambda U, V, w, P: P["c"] * e_dot(np.asarray(w.n), U[0].g) * U[0].v * V[0].v + w.h * U[0].v ** 2 * V[0].v,
+           jac=lambda U, D, V, w, P: P["c"] * (e_dot(np.asarray(w.n), D[0].g) * U[0].v + e_dot(np.asarray(w.n), U[0].g) * D[0].v) * V[0].v
+           + 2 * w.h * U[0].v * D[0].v * V[0].v,
+           coef=_c(.5, 2, "c"), dims=(2, 3), jax_helpers=("dot", "grad"), kw=_kw_shadow_n))
     a(Term("normal-flux", "vector",
            jx=lambda u, v, w, P: P["c"] * JH().dot(u[0], w.n) * JH().dot(u[0], v[0])
            + JH().dot(JH().mul(JH().grad(u[0]), w.n), v[0]),
